@@ -28,7 +28,7 @@ ASSUMPTIONS = ['whether the callee name is looked up before or after its argumen
 REAL = ['smartquery.*']
 STUB = ['host probes t / boom (scripted, with a fault plan)']
 REACH_PROBES = ('lazy_and', 'lazy_or', 'if', 'probe_raise_fired', 'slice', 'dict_literal', 'setitem', 'setitemop',
-                'short', 'lambda_body_probe', 'literal_leaf_next_to_lazy', 'call_args', 'del')
+                'short', 'lambda_body_probe', 'literal_leaf_next_to_lazy', 'call_args', 'del', 'lamcall')
 
 TRUTHY = {'num': [['num', '1'], ['num', '2.5'], ['neg', ['num', '3']]], 'str': [['str', 'a'], ['str', '0']],
           'bool': [['bool', True]], 'list': [['list', [['num', '1']]], ['list', [['list', []]]]], 'none': [['num', '7']]}
@@ -195,8 +195,19 @@ class Shape:
 
     def stmt(self, d):
         r = self.r
-        k = weighted(r, [('expr', 6), ('assign', 2), ('short', 2), ('setitem', 3), ('setitemop', 2.5), ('del', 1.5)])
+        k = weighted(r, [('expr', 6), ('assign', 2), ('short', 2), ('setitem', 3), ('setitemop', 2.5), ('del', 1.5), ('lamcall', 1.5)])
         self.kinds.add(k)
+        if k == 'lamcall':
+            # a program lambda applied directly; its body may fail (type error) after some of its probes ran: the body
+            # is evaluated once per call, failing or not
+            self.in_lambda += 1
+            try:
+                bad = ['bin', '+', ['name', 'v'], self.leaf('str')] if r.random() < 0.6 else self.e('num', 2)
+                body = ['bin', r.choice(['+', '-']), self.e('num', 1), bad] if r.random() < 0.6 else bad
+            finally:
+                self.in_lambda -= 1
+            call = ['call', 'g', [self.leaf('num')], 'plain']
+            return ['block', [['assign', 'g', ['lambda', ['v'], body]], ['assign', 'x', call] if r.random() < 0.5 else call]]
         if k == 'expr':
             return self.e(r.choice(['num', 'num', 'bool', 'str', 'list', 'dict']), d)
         if k == 'assign':
@@ -244,7 +255,11 @@ def generate(seed, tier):
     rc, ro, rf = S['config'], S['ops'], S['faults']
     sh = Shape(ro)
     n_st = weighted(ro, [(1, 6), (2, 2), (3, 1)])
-    prog = ['block', [sh.stmt(ro.choice([2, 3, 3, 4])) for _ in range(n_st)]]
+    stmts = []
+    for _ in range(n_st):
+        st = sh.stmt(ro.choice([2, 3, 3, 4]))
+        stmts.extend(st[1] if st[0] == 'block' else [st])
+    prog = ['block', stmts]
     holes = sh.holes
     if len(holes) <= 5:
         assigns = list(itertools.product([True, False], repeat=len(holes)))
